@@ -189,3 +189,19 @@ def _takes_wc(f):
 
 def model_convert_req(text, root, prefix='', uri=DEFAULT_URI):
     return {'op': 'convert', 'text': text, 'root': root, 'prefix': prefix, 'uris': uris_for(uri)}
+
+
+def unparse_tree(tree):
+    """real unparse of a canonical tree: {'text', 'tree' (as left behind by the call)} or {'exc'}"""
+    from . import eidlib
+    from bluebell.parser import AkomaNtosoParser
+    el = eidlib.to_etree(tree)
+    try:
+        text = AkomaNtosoParser(None).unparse(el)
+    except Exception as ex:  # noqa
+        return classify_exc(ex)
+    return {'text': text, 'tree': canon(el, stub_meta=False)}
+
+
+def full_canon(el):
+    return canon(el, stub_meta=False)
